@@ -52,8 +52,8 @@ def _pop(aj, i):
 def cases(ctx, oracle_only=False):
     rng = ctx.rng
     out = []
-    small = ctx.n(6, 30)
-    nmax_exh = ctx.n(4, 6)
+    small = ctx.n(12, 40)
+    nmax_exh = ctx.n(5, 6)
     for s in range(small):
         n = rng.randint(2, nmax_exh)
         aj = gen.rand_atoms(rng, n=n, term_density=rng.randint(1, 3))
@@ -62,7 +62,7 @@ def cases(ctx, oracle_only=False):
                 out.append(("delete", aj, list(idx)))
         for i in [None] + list(range(-n, n)):
             out.append(("pop", aj, i))
-    for s in range(ctx.n(150, 3000)):
+    for s in range(ctx.n(400, 4000)):
         aj = gen.rand_atoms(rng, n=rng.randint(3, ctx.n(8, 14)))
         n = len(aj["atoms"])
         idx = rng.sample(range(n), rng.randint(1, n))
